@@ -47,6 +47,18 @@ impl<'a, T> MutexGuard<'a, VecDeque<T>> {
     pub uninterp spec fn view(&self) -> Seq<T>;
     #[verifier::external_body]
     pub fn push_back(&mut self, t: T) ensures final(self)@ == old(self)@.push(t) { unimplemented!() }
+    #[verifier::external_body]
+    pub fn back(&self) -> (r: Option<&T>)
+        ensures self@.len() == 0 ==> r.is_none(), self@.len() > 0 ==> r.is_some() && *r.unwrap() == self@.last(),
+    { unimplemented!() }
+    #[verifier::external_body]
+    pub fn front(&self) -> (r: Option<&T>)
+        ensures self@.len() == 0 ==> r.is_none(), self@.len() > 0 ==> r.is_some() && *r.unwrap() == self@[0],
+    { unimplemented!() }
+    #[verifier::external_body]
+    pub fn len(&self) -> (r: usize) ensures r == self@.len() { unimplemented!() }
+    #[verifier::external_body]
+    pub fn is_empty(&self) -> (r: bool) ensures r == (self@.len() == 0) { unimplemented!() }
 }
 #[verifier::external_body]
 #[verifier::reject_recursive_types(T)]
@@ -103,8 +115,8 @@ impl WakerQueue {
 //@extract file=actix-server/src/waker_queue.rs item="impl WakerQueue / fn wake" props=C03,C05,C06,C08 name=waker_queue::wake intended_panics trace_calls=push_back,wake closures=1
 //@spec
     requires true,
-//@insert fn_end=1
-        // exactly one interest is queued and the accept poll is woken exactly once, AFTER the interest is in the queue   [C03]
+//@insert fn_exit=1
+        // on EVERY exit: exactly one interest is queued and the accept poll is woken exactly once, AFTER the interest is in the queue   [C03]
         assert(r24_trace == seq![0int, 1int]);   // [C03,C05,C06,C08]
 //@end
 
